@@ -16,8 +16,6 @@ import (
 	"encoding/hex"
 	"encoding/json"
 	"fmt"
-	"github.com/formancehq/ledger/internal/storage/ledgerstore"
-	"github.com/formancehq/stack/libs/go-libs/bun/bunpaginate"
 	"math/big"
 	"os"
 	"sort"
@@ -53,7 +51,10 @@ var engWatchdogs int
 type engStore struct {
 	mu       sync.Mutex
 	logs     []*ledger.ChainedLog // durable, in insertion order, across commander generations
-	rows     []ledgerstore.Logs   // what ledgerstore.Store.InsertLogs would have written for them, encoded at the time of the insertion
+	real     *lsStore             // a REAL ledgerstore.Store over the logs table of logstore.go: every entry that becomes durable is written by its InsertLogs
+	rowOf    []int                // logs[i] is row rowOf[i] of that table (-1: the real InsertLogs did not write it)
+	written  []J                  // logs[i] as it was when it was handed to InsertLogs (canonical dump)
+	realErr  []string             // what the real InsertLogs answered when it did not write
 	ameta    map[string]metadata.Metadata
 	gate     func(logs []*ledger.ChainedLog) error // scheduler gate; nil = pass
 	reads    int
@@ -174,40 +175,74 @@ func (st *engStore) InsertLogs(ctx context.Context, logs ...*ledger.ChainedLog) 
 		}
 	}
 	st.mu.Lock()
-	for _, l := range logs {
-		st.persist(l)
-	}
+	st.persist(logs...)
 	st.mu.Unlock()
 	return nil
 }
 
-// persist appends the entry and the row ledgerstore.Store.InsertLogs would write for it, encoded NOW: what is serialised is the state
-// of the entry at the moment it reaches the store
-func (st *engStore) persist(l *ledger.ChainedLog) {
-	st.logs = append(st.logs, l)
-	data, err := json.Marshal(l.Data)
-	if err != nil {
-		data = []byte("null")
+// persist makes the entries durable: they are appended to the in-memory log the commander reads from, and the SAME call is made on the
+// real ledgerstore.Store (one InsertLogs call for the batch, as the batcher's worker makes it), whose COPY arguments are the stored rows.
+// What is serialised is the state of each entry at the moment it reaches the store.
+func (st *engStore) persist(logs ...*ledger.ChainedLog) {
+	if st.real == nil {
+		st.real = lsOpen()
 	}
-	st.rows = append(st.rows, ledgerstore.Logs{Ledger: "l", ID: (*bunpaginate.BigInt)(big.NewInt(0).Set(l.ID)), Type: l.Type.String(),
-		Hash: append([]byte{}, l.Hash...), Date: l.Date, Data: data, IdempotencyKey: l.IdempotencyKey})
+	before := st.real.t.n()
+	err := st.real.insert(logs...)
+	got := st.real.t.n() - before
+	if err != nil {
+		st.realErr = append(st.realErr, err.Error())
+	} else if got != len(logs) {
+		st.realErr = append(st.realErr, fmt.Sprintf("InsertLogs of %d entries wrote %d rows", len(logs), got))
+	}
+	for k, l := range logs {
+		st.logs = append(st.logs, l)
+		st.written = append(st.written, lrDump(l))
+		if err == nil && got == len(logs) {
+			st.rowOf = append(st.rowOf, before+k)
+		} else {
+			st.rowOf = append(st.rowOf, -1)
+		}
+	}
 }
 
-// storedOK reads row i back the way the store does (Logs.ToCore: HydrateLog of the stored JSON) and recomputes its hash over the
-// previous row read back the same way: true when the stored entry still verifies (C13 on entries written under concurrency)
-func (st *engStore) storedOK(i int) (ok bool) {
-	defer func() {
-		if recover() != nil {
-			ok = false
-		}
-	}()
-	var prev *ledger.ChainedLog
-	if i > 0 {
-		prev = st.rows[i-1].ToCore()
+func (st *engStore) closeReal() {
+	if st.real != nil {
+		st.real.close()
 	}
-	cur := st.rows[i].ToCore()
-	re := cur.Log.ChainLog(prev)
-	return hex.EncodeToString(re.Hash) == hex.EncodeToString(st.rows[i].Hash) && cur.ID.Cmp((*big.Int)(st.rows[i].ID)) == 0
+}
+
+// stored reads the row of entry i back the way the store does (the row a SELECT hands over scanned into ledgerstore.Logs, Logs.ToCore) and
+// recomputes its hash over the previous row read back the same way.  "ok": the row is the entry that was handed to InsertLogs (id, type,
+// date, idempotency key, payload, hash) and still verifies (C13 on entries written under concurrency); when it is not, both dumps are given.
+func (st *engStore) stored(i int) J {
+	if st.rowOf[i] < 0 {
+		return J{"ok": false, "error": strings.Join(st.realErr, "; ")}
+	}
+	cur, err := st.real.t.lsCore(st.rowOf[i])
+	if err != nil {
+		return J{"ok": false, "panic": err.Error()}
+	}
+	var prev *ledger.ChainedLog
+	if i > 0 && st.rowOf[i-1] >= 0 {
+		if prev, err = st.real.t.lsCore(st.rowOf[i-1]); err != nil {
+			prev = st.logs[i-1]
+		}
+	} else if i > 0 {
+		prev = st.logs[i-1]
+	}
+	out := J{"ok": true}
+	back := lrDump(cur)
+	a, _ := json.Marshal(st.written[i])
+	b, _ := json.Marshal(back)
+	if !bytes.Equal(a, b) {
+		out["ok"], out["written"], out["row"] = false, st.written[i], back
+	}
+	re := lrGuard(func() J { return J{"h": hex.EncodeToString(cur.Log.ChainLog(prev).Hash)} })
+	if h, _ := re["h"].(string); h != st.written[i]["hash"] {
+		out["ok"], out["rehash"], out["hash"] = false, re["h"], st.written[i]["hash"]
+	}
+	return out
 }
 
 func (st *engStore) GetLastLog(ctx context.Context) (*ledger.ChainedLog, error) {
@@ -744,6 +779,7 @@ var engVisible = map[string]bool{"start": true, "ik-lookup": true, "ref-lookup":
 
 func runEngineSchedule(reqs []engReq, funding [][]string, ameta [][]string, plan engPlan) (out J) {
 	st := &engStore{ameta: map[string]metadata.Metadata{}, failRead: plan.FailRead}
+	defer st.closeReal()
 	for _, m := range ameta {
 		if st.ameta[m[0]] == nil {
 			st.ameta[m[0]] = metadata.Metadata{}
@@ -1199,8 +1235,10 @@ func runEngineSchedule(reqs []engReq, funding [][]string, ameta [][]string, plan
 	for i, l := range st.logs {
 		o := logJ(pv, l)
 		o["funding"] = i < nFunding
-		if i < len(st.rows) {
-			o["stored_ok"] = st.storedOK(i)
+		sr := st.stored(i)
+		o["stored_ok"] = sr["ok"]
+		if sr["ok"] != true {
+			o["stored"] = sr
 		}
 		durable = append(durable, o)
 		pv = l
@@ -1286,7 +1324,42 @@ func execEngine(in J) J {
 
 // ------------------------------------------------------------------ scenario generator
 
-func genEngine(r *rng, n int, tier string, emit func(J)) {
+// engLongKeys: in one scenario out of five every idempotency key is made long — the same key stays the same key —: 255, 256 or 300
+// characters (ASCII or multi-byte), around the width of the idempotency_key column.  The choice is a function of the scenario itself
+// (no draw is taken from the generator's stream).
+func engLongKeys(scn J) {
+	reqs, _ := scn["requests"].([]J)
+	text, _ := json.Marshal(reqs)
+	h := sha256.Sum256(text)
+	var seed uint64
+	for _, b := range h[:8] {
+		seed = seed<<8 | uint64(b)
+	}
+	kr := &rng{s: seed}
+	if !kr.p(20) {
+		return
+	}
+	long := map[string]string{}
+	for _, q := range reqs {
+		k, _ := q["ik"].(string)
+		if k == "" {
+			continue
+		}
+		if _, ok := long[k]; !ok {
+			n := []int{255, 256, 300}[kr.n(3)]
+			pad := kr.pick([]string{"0", "é", "日"})
+			b := []rune(k + "-")
+			for len(b) < n {
+				b = append(b, []rune(pad)...)
+			}
+			long[k] = string(b)
+		}
+		q["ik"] = long[k]
+	}
+}
+
+func genEngine(r *rng, n int, tier string, emit0 func(J)) {
+	emit := func(scn J) { engLongKeys(scn); emit0(scn) }
 	accts := []string{"alice", "bob", "carol"}
 	nPlans := 6
 	if tier == "thorough" {
